@@ -233,6 +233,12 @@ func (n *Namespace) add(c *serverConn, auth json.RawMessage) (*serverSocket, err
 func (n *Namespace) doConnect(socket *serverSocket) error {
 	n.sockets.set(socket)
 
+	// The connection must know about the socket before the CONNECT packet is sent.
+	// Otherwise a packet the client sends right after it receives the CONNECT packet
+	// can arrive while the namespace still seems not joined, and the connection gets closed.
+	socket.conn.sockets.set(socket)
+	socket.conn.nsps.set(n)
+
 	// It is paramount that the internal `onconnect` logic
 	// fires before user-set events to prevent state order
 	// violations (such as a disconnection before the connection
